@@ -54,7 +54,17 @@ func (t *tr) closure(fl *ast.FuncLit) string {
 		results = fl.Type.Results.List
 	}
 	isErr := func(f *ast.Field) bool { return exprString(f.Type) == "error" && len(f.Names) <= 1 }
+	optParam := "" // OptionClosures: the single pointer parameter of a functional option
+	if t.spec.OptionClosures && !hasWriter && len(fl.Type.Params.List) == 1 && len(fl.Type.Params.List[0].Names) == 1 {
+		if _, isPtr := fl.Type.Params.List[0].Type.(*ast.StarExpr); isPtr && fl.Type.Params.List[0].Names[0].Name != "_" {
+			optParam = fl.Type.Params.List[0].Names[0].Name
+		}
+	}
 	switch {
+	case optParam != "" && len(results) == 0:
+		sp.Ret, sp.RetParam, sp.PlainUpdate = RetVal, t.ident(optParam), true
+	case optParam != "" && len(results) == 1 && isErr(results[0]):
+		sp.Ret, sp.RetParam, sp.PlainUpdate = RetErr, t.ident(optParam), true
 	case len(results) == 0:
 		if !hasWriter {
 			return t.bad("closure without result and without the response writer", fl)
